@@ -81,6 +81,8 @@ class State:
         self.memo = {}
         self.facts = set()
         self.fresh_refs = frozenset()
+        self.local_fields = {}      # id of a fresh reference constant -> {"Owner.field": value term}; until it escapes
+        self.fresh_terms = {}       # id -> z3 constant of the fresh reference
 
     def heap_sig(self):
         """Signature of the heap contents (initial arrays, created lazily on first read, do not count)."""
@@ -89,7 +91,8 @@ class State:
         return hash(tuple(sorted((k, v.get_id()) for k, v in self.heap.items() if not pristine(k, v)))
                     + tuple(sorted((k, v.term.get_id()) for k, v in self.ghost.items()
                                    if isinstance(v, V) and not str(v.term).endswith("0")))
-                    + (self.ghost.get("__params_version__", 0),))
+                    + (self.ghost.get("__params_version__", 0),)
+                    + tuple(sorted((rid, k, t.get_id()) for rid, fs in self.local_fields.items() for k, t in fs.items())))
 
     def copy(self):
         s = State.__new__(State)
@@ -105,6 +108,8 @@ class State:
         s.memo = dict(self.memo)
         s.facts = set(self.facts)
         s.fresh_refs = self.fresh_refs
+        s.local_fields = {k: dict(v) for k, v in self.local_fields.items()}
+        s.fresh_terms = dict(self.fresh_terms)
         return s
 
     @property
@@ -194,16 +199,70 @@ class Engine:
             st.heap[key] = z3.Const(f"H0_{key}", z3.ArraySort(RefSort, kind.sort()))
         return st.heap[key]
 
+    def mentions_fresh(self, st, term):
+        """Ids of not yet escaped fresh references occurring in a term."""
+        if not st.local_fields:
+            return []
+        found, seen, todo = [], set(), [term]
+        while todo:
+            x = todo.pop()
+            if x.get_id() in seen:
+                continue
+            seen.add(x.get_id())
+            if x.get_id() in st.local_fields:
+                found.append(x.get_id())
+            todo.extend(x.children())
+        return found
+
+    def escape(self, st, rid):
+        """A fresh object becomes reachable from the heap: move its fields into the heap arrays."""
+        fields = st.local_fields.pop(rid, None)
+        if not fields:
+            return
+        r = st.fresh_terms[rid]
+        for key, term in fields.items():
+            owner, field = key.split(".")
+            _, kind = self.field_kind(owner, field)
+            arr = self.heap_array(st, owner, field, kind)
+            st.heap[key] = z3.Store(arr, r, term)
+            for sub in self.mentions_fresh(st, term):
+                self.escape(st, sub)
+
     def read_field(self, st, ref, owner, field, kind):
+        loc = st.local_fields.get(ref.term.get_id())
+        if loc is not None:
+            key = f"{owner}.{field}"
+            if key in loc:
+                return V(kind, loc[key])
+            # field of a fresh object that was never written: arbitrary but fixed value
+            loc[key] = z3.Const(fresh_name(f"init_{field}"), kind.sort())
+            return V(kind, loc[key])
         arr = self.heap_array(st, owner, field, kind)
         # peephole: read of a location that was just written
         if z3.is_app(arr) and arr.decl().kind() == z3.Z3_OP_STORE and arr.arg(1).eq(ref.term):
             return V(kind, arr.arg(2))
-        return V(kind, z3.Select(arr, ref.term))
+        val = z3.Select(arr, ref.term)
+        if isinstance(kind, Ref):
+            # heap typing: a reference stored in the heap is null or an object that exists; for the initial heap
+            # it existed initially (so it differs from every object allocated during the function)
+            key = ("alloc-fact", val.get_id())
+            if key not in st.memo:
+                st.memo[key] = True
+                if self._pristine(f"{owner}.{field}", arr):
+                    st.assume(z3.Or(val == NULL, z3.Select(z3.Const("alloc0", st.alloc.sort()), val)))
+                else:
+                    st.assume(z3.Or(val == NULL, z3.Select(st.alloc, val)))
+        return V(kind, val)
 
     def write_field(self, st, ref, owner, field, kind, val):
-        arr = self.heap_array(st, owner, field, kind)
         term = self.coerce(val, kind, st).term
+        loc = st.local_fields.get(ref.term.get_id())
+        if loc is not None:
+            loc[f"{owner}.{field}"] = term
+            return
+        for rid in self.mentions_fresh(st, term):
+            self.escape(st, rid)
+        arr = self.heap_array(st, owner, field, kind)
         if z3.is_app(term) and term.decl().kind() == z3.Z3_OP_ITE:
             term = z3.simplify(term)
         # peepholes keep heap terms canonical (memoised getter results are keyed by the heap term):
@@ -223,6 +282,8 @@ class Engine:
         st.assume(z3.Not(z3.Select(st.alloc, r)))
         st.alloc = z3.Store(st.alloc, r, z3.BoolVal(True))
         st.fresh_refs = st.fresh_refs | {r.get_id()}
+        st.local_fields[r.get_id()] = {}
+        st.fresh_terms[r.get_id()] = r
         return V(Ref(cls), r)
 
     def coerce(self, val, kind, st=None):
@@ -1428,6 +1489,12 @@ class Engine:
                 return False
         if a.pyheap.keys() != b.pyheap.keys() or any(a.pyheap[k] is not b.pyheap[k] for k in a.pyheap):
             return False
+        if a.local_fields.keys() != b.local_fields.keys():
+            return False
+        for rid in a.local_fields:
+            fa, fb = a.local_fields[rid], b.local_fields[rid]
+            if fa.keys() != fb.keys() or any(fa[k].get_id() != fb[k].get_id() for k in fa):
+                return False
         if len(a.frames) != len(b.frames):
             return False
         for k in set(a.ghost) | set(b.ghost):
